@@ -14,11 +14,16 @@ func getFieldDisplayName(field *ast.Field) string {
 }
 
 func FindSelection(matchString string, selectionSet ast.SelectionSet) *ast.Field {
-	for _, s := range common.SelectionSetToFields(selectionSet, nil) {
+	fields := common.SelectionSetToFields(selectionSet, nil)
+
+	// a field of this level wins over a deeper field with the same response name
+	for _, s := range fields {
 		if getFieldDisplayName(s) == matchString {
 			return s
 		}
+	}
 
+	for _, s := range fields {
 		if len(s.SelectionSet) > 0 {
 			if f := FindSelection(matchString, s.SelectionSet); f != nil {
 				return f
